@@ -110,8 +110,30 @@ def keyed_values(S, names):
     if tid not in S or cid not in S[tid][1]:
       continue
     rows, cols = S[tid]
-    out[(tref, cref)] = (rows, [_map_tables(v, names.tid2ref) for v in cols[cid]])
+    vals = [_map_tables(v, names.tid2ref) for v in cols[cid]]
+    if not names.C[cref]['isFormula']:
+      # A data column with a default / trigger formula: its cells are stored data. A reference value held in an
+      # Any-typed data cell keeps the table id it was stored with (nothing recalculates it), so the cell is accepted
+      # both as it literally was and with the table id mapped through the rename.
+      vals = [_Either(m, raw) for m, raw in zip(vals, cols[cid])]
+    out[(tref, cref)] = (rows, vals)
   return out
+
+
+class _Either(object):
+  def __init__(self, mapped, raw):
+    self.mapped, self.raw = mapped, raw
+
+  def __eq__(self, other):
+    if isinstance(other, _Either):
+      return self.mapped == other.mapped or self.raw == other.raw
+    return NotImplemented
+
+  def __ne__(self, other):
+    return not self.__eq__(other)
+
+  def __repr__(self):
+    return repr(self.raw)
 
 
 def diff_values(A, B, maxn=4):
@@ -126,7 +148,7 @@ def diff_values(A, B, maxn=4):
       continue
     for r, x, y in zip(ra, va, vb):
       if x != y:
-        msgs.append(('col %r row %s: %s -> %s' % (k, r, snapshot._short(x, 80), snapshot._short(y, 80)), k))
+        msgs.append(('col %r row %s: %s -> %s' % (k, r, snapshot._short(getattr(x, 'raw', x), 80), snapshot._short(getattr(y, 'raw', y), 80)), k))
         break
     if len(msgs) >= maxn:
       break
@@ -139,11 +161,10 @@ def diff_values(A, B, maxn=4):
 def _tokens(text):
   text = text.replace('$', DOLLAR_MARK)
   toks = list(tokenize.generate_tokens(io.StringIO(text).readline))
-  lines = text.split('\n')
-  # absolute offsets
+  # absolute offsets of line starts, as the tokenizer counts lines ('\n' only)
   starts = [0]
-  for ln in text.splitlines(True):
-    starts.append(starts[-1] + len(ln))
+  for ln in text.split('\n'):
+    starts.append(starts[-1] + len(ln) + 1)
   out = []
   for t in toks:
     (sl, sc), (el, ec) = t.start, t.end
